@@ -155,6 +155,13 @@ pub fn arith(m: &mut M, r: &mut Rng, n: u64, which: &str) {
             let (x2, y2) = if r.coin() { (x, y) } else { (r.f64_in(-1022, 1022), r.f64_in(-1022, 1022)) };
             m.call("arith", "new_add", "inh", Some(2), &[A::F(x2), A::F(y2)]);
             m.call("arith", "new_sub", "inh", Some(2), &[A::F(x2), A::F(y2)]);
+            // second operand in the half-ulp / quarter-ulp neighbourhood of the first (both orders)
+            let xa = r.f64_in(-1000, 1000);
+            let xb = lo_candidate(r, xa);
+            m.call("arith", "new_add", "inh", Some(2), &[A::F(xa), A::F(xb)]);
+            m.call("arith", "new_add", "inh", Some(2), &[A::F(xb), A::F(xa)]);
+            m.call("arith", "new_sub", "inh", Some(2), &[A::F(xa), A::F(xb)]);
+            m.call("arith", "new_sub", "inh", Some(2), &[A::F(xb), A::F(xa)]);
             // subnormal operands
             if i % 7 == 0 {
                 let s1 = f64::from_bits(r.next() & ((1u64 << 52) - 1));
@@ -175,6 +182,23 @@ pub fn arith(m: &mut M, r: &mut Rng, n: u64, which: &str) {
                 let c = r.f64_in(500, 511);
                 let d = r.f64_in(505, 511);
                 m.call("arith", "new_mul", "inh", Some(2), &[A::F(c), A::F(d)]);
+            }
+            if i % 3 == 0 {
+                // products anywhere near the underflow threshold (exactness is only claimed above 2^-960,
+                // but the result must not depend on the build configuration) and quotients likewise
+                let e1 = r.range(-1022, 1000) as i32;
+                let et = r.range(-1085, -940) as i32;
+                let e2 = (et - e1).clamp(-1022, 1023);
+                let a = r.f64_in(e1, e1);
+                let b = r.f64_in(e2, e2);
+                m.call("arith", "new_mul", "inh", Some(2), &[A::F(a), A::F(b)]);
+                m.call("arith", "new_div", "inh", Some(2), &[A::F(a), A::F(r.f64_in((-e2).clamp(-1022, 1023), (-e2).clamp(-1022, 1023)))]);
+                if m.load(3, a, 0.0) {
+                    m.call("arith", "mul", *r.pick(&SP_TT), Some(4), &[A::R(3), A::F(b)]);
+                    if m.load(5, b, 0.0) {
+                        m.call("arith", "mul", *r.pick(&SP_TT), Some(4), &[A::R(3), A::R(5)]);
+                    }
+                }
             }
             let z = r.f64_in(-1022, 1023);
             m.call("arith", "from_f64", *r.pick(&["From", "from_f64", "Into", "NumCast"]), Some(2), &[A::F(z)]);
